@@ -8,6 +8,7 @@ def main():
     from coba.multiprocessing import CobaMultiprocessor
     from vf.components import CacheUser
     rng = random.Random(seed)
+    os.environ["PYTHONHASHSEED"] = "random"              # spawn-ed workers: a different str-hash salt in every interpreter
     CobaContext.cacher = DiskCacher(os.path.join(wd, "cache"))
     CobaContext.logger = NullLogger()
     log = os.path.join(wd, "events.log")
